@@ -16,6 +16,7 @@ import (
 	"github.com/akrennmair/updog/zzverif/ix"
 	"github.com/akrennmair/updog/zzverif/model"
 	"github.com/akrennmair/updog/zzverif/rt"
+	"go.etcd.io/bbolt"
 )
 
 // C16 — existing files are never clobbered; reading never modifies the index file.
@@ -63,6 +64,15 @@ func c16Clobber(ctx *rt.Ctx, c c16Case) string {
 		os.WriteFile(out, nil, 0o644)
 	case "bytes":
 		os.WriteFile(out, bytes.Repeat([]byte{0xAB}, 1024), 0o644)
+	case "symlink-dangling":
+		os.Symlink(filepath.Join(dir, "nowhere", "x.updog"), out)
+	case "symlink-to-index":
+		p, _, err := ix.Build(dir, c16Rows(5), ix.MemFile)
+		if err != nil {
+			rt.Harnessf("build: %v", err)
+		}
+		os.Rename(p, filepath.Join(dir, "real.updog"))
+		os.Symlink(filepath.Join(dir, "real.updog"), out)
 	case "index", "index-readonly":
 		p, _, err := ix.Build(dir, c16Rows(5), ix.MemFile)
 		if err != nil {
@@ -73,7 +83,18 @@ func c16Clobber(ctx *rt.Ctx, c c16Case) string {
 			os.Chmod(out, 0o444)
 		}
 	}
+	if c.Existing == "appears" {
+		return c16Appears(c, dir, out)
+	}
+	linkState := func() string {
+		l, _ := os.Readlink(out)
+		_, err := os.Stat(filepath.Join(dir, "nowhere", "x.updog"))
+		return fmt.Sprintf("%s->%s/%v/%s", fileState(out), l, os.IsNotExist(err), fileState(filepath.Join(dir, "real.updog")))
+	}
 	before := fileState(out)
+	if strings.HasPrefix(c.Existing, "symlink") {
+		before = linkState()
+	}
 	failed := false
 	detail := ""
 	switch c.Via {
@@ -108,6 +129,9 @@ func c16Clobber(ctx *rt.Ctx, c c16Case) string {
 		detail = strings.TrimSpace(string(o))
 	}
 	after := fileState(out)
+	if strings.HasPrefix(c.Existing, "symlink") {
+		after = linkState()
+	}
 	if !failed {
 		return fmt.Sprintf("writing to an existing file (%s) succeeded (%s)", c.Existing, detail)
 	}
@@ -115,6 +139,60 @@ func c16Clobber(ctx *rt.Ctx, c c16Case) string {
 		return fmt.Sprintf("the existing file (%s) changed from %s to %s although the write failed", c.Existing, before, after)
 	}
 	return ""
+}
+
+// c16Appears: the output path does not exist when Flush starts; at the k-th write to any database file Flush
+// opens in that directory, another actor creates the path (exclusive create, as a second writer would). If that create
+// succeeds, the path exists from then on: Flush must fail and leave the other actor's file untouched. Every k is tried.
+func c16Appears(c c16Case, dir, out string) string {
+	marker := []byte("created by somebody else while Flush was running")
+	for k := 1; ; k++ {
+		os.Remove(out)
+		leftovers, _ := filepath.Glob(filepath.Join(dir, "*"))
+		for _, l := range leftovers {
+			os.Remove(l)
+		}
+		n, created := 0, false
+		bbolt.VerifOpenHook = func(db *bbolt.DB) {
+			if filepath.Dir(db.Path()) != dir {
+				return
+			}
+			db.VerifWrapWrite(func(orig func([]byte, int64) (int, error)) func([]byte, int64) (int, error) {
+				return func(b []byte, off int64) (int, error) {
+					n++
+					if n == k {
+						if f, err := os.OpenFile(out, os.O_CREATE|os.O_EXCL|os.O_WRONLY, 0o644); err == nil {
+							f.Write(marker)
+							f.Close()
+							created = true
+						}
+					}
+					return orig(b, off)
+				}
+			})
+		}
+		w := updog.NewIndexWriter(out)
+		for _, r := range c16Rows(c.Rows) {
+			w.AddRow(r)
+		}
+		err := w.Flush()
+		bbolt.VerifOpenHook = nil
+		if created {
+			got, _ := os.ReadFile(out)
+			if err == nil {
+				return fmt.Sprintf("another actor created the output path at write %d of Flush, yet Flush reported success (file now holds %d bytes)", k, len(got))
+			}
+			if !bytes.Equal(got, marker) {
+				return fmt.Sprintf("another actor created the output path at write %d of Flush; Flush failed but modified that file", k)
+			}
+		}
+		if n < k {
+			return "" // all write points tried
+		}
+		if k > 2000 {
+			rt.Harnessf("appears: too many writes")
+		}
+	}
 }
 
 var c16Queries = []*model.Expr{model.Eq("k", "1"), model.Not(model.Eq("v", "3")), model.And(model.Eq("k", "0"), model.Not(model.Eq("v", "0"))), model.Or(model.Eq("v", "1"), model.Eq("v", "nope"))}
@@ -253,9 +331,12 @@ func c16Worker(ctx *rt.Ctx, job *rt.Job) []*rt.Violation {
 
 func c16Run(ctx *rt.Ctx) []*rt.Violation {
 	var vs []*rt.Violation
-	for _, ex := range []string{"empty", "index", "bytes", "index-readonly"} {
+	for _, ex := range []string{"empty", "index", "bytes", "index-readonly", "symlink-dangling", "symlink-to-index", "appears"} {
 		for _, rows := range []int{0, 3, 1500} {
 			for _, via := range []string{"flush", "create", "create-big"} {
+				if ex == "appears" && via != "flush" {
+					continue // needs the in-process write hook
+				}
 				c := c16Case{Kind: "clobber", Existing: ex, Rows: rows, Via: via}
 				ctx.Cov.Add("evaluations", 1)
 				ctx.Cov.Add("distinct_nontrivial", 1)
@@ -278,7 +359,7 @@ func c16Run(ctx *rt.Ctx) []*rt.Violation {
 	}
 	outs := rt.RunJobs(ctx, jobs, rt.SpawnOpt{})
 	vs = append(vs, rt.Collect(ctx, outs, nil)...)
-	ctx.Cov.Note("rule", fmt.Sprintf("clobber: 4 pre-existing contents x 3 writer sizes x {IndexWriter.Flush, updog create, updog create -b}: must fail and leave SHA-256/size/mode unchanged; read: every enabled history up to depth %d over {4 open variants, 4 queries, GetSchema, Close} on a copy of a valid 1200-row index: SHA-256/size/mode compared after every step; non-trivial = clobber cases and read histories of length >= 3", depth))
+	ctx.Cov.Note("rule", fmt.Sprintf("clobber: 6 pre-existing contents (empty, valid index, arbitrary bytes, read-only index, dangling symlink, symlink to an index) x 3 writer sizes x {IndexWriter.Flush, updog create, updog create -b}: must fail and leave SHA-256/size/mode (and link target) unchanged; 'appears': for every write k of Flush another actor exclusively creates the output path at that moment - if it succeeds Flush must fail and leave that file alone; read: every enabled history up to depth %d over {4 open variants, 4 queries, GetSchema, Close} on a copy of a valid 1200-row index: SHA-256/size/mode compared after every step; non-trivial = clobber cases and read histories of length >= 3", depth))
 	return vs
 }
 
